@@ -67,20 +67,16 @@ func (w *World) effectOf(in ssa.Instruction) *effect {
 		}
 	case ssa.CallInstruction:
 		c := x.Common()
-		if arms := w.ledgerArms(x); arms != nil {
+		if arms := w.ledgerArmsF(x); arms != nil {
 			for _, a := range arms {
 				if overlayMutator[a.Method] {
 					kind, desc := w.ledgerKind(a.Recv)
 					if kind == "scratch" {
 						continue
 					}
-					_, args := callRecvArgs(c)
-					if len(c.Args) > 0 && args == nil {
-						args = c.Args
-					}
 					obj := ""
-					if len(c.Args) > 0 {
-						obj = w.Canon(c.Args[len(c.Args)-1])
+					if it := w.ledgerItemArg(x); it != nil {
+						obj = w.Canon(it)
 					}
 					return &effect{Kind: "overlay", What: desc + "." + a.Method, Obj: obj, Call: callValue(x), In: in}
 				}
@@ -142,7 +138,7 @@ func (w *World) hasEffect(fn *ssa.Function, onStack map[*ssa.Function]bool) bool
 		for _, in := range b.Instrs {
 			if c, ok := in.(ssa.CallInstruction); ok {
 				if f := c.Common().StaticCallee(); f != nil && w.InModule(f) && !inLedgerPkg(w, f) && f.Blocks != nil && f != fn {
-					if w.ledgerArms(c) == nil && w.hasEffect(f, onStack) {
+					if w.ledgerArmsF(c) == nil && w.hasEffect(f, onStack) {
 						res = true
 					}
 					if res {
@@ -170,7 +166,7 @@ func (w *World) hasEffect(fn *ssa.Function, onStack map[*ssa.Function]bool) bool
 // effectOfShallow: like effectOf without descending into static module callees.
 func (w *World) effectOfShallow(in ssa.Instruction) *effect {
 	if c, ok := in.(ssa.CallInstruction); ok {
-		if f := c.Common().StaticCallee(); f != nil && w.InModule(f) && w.ledgerArms(c) == nil {
+		if f := c.Common().StaticCallee(); f != nil && w.InModule(f) && w.ledgerArmsF(c) == nil {
 			if rn := recvNamed(c.Common()); rn == nil || !itemMutators[rn.Obj().Name()+"."+callName(c.Common())] {
 				return nil
 			}
@@ -183,7 +179,7 @@ func (w *World) effectOfShallow(in ssa.Instruction) *effect {
 func (w *World) alwaysNilErr(call ssa.CallInstruction, seen map[*ssa.Function]bool) bool {
 	// through method-value idioms: all arms
 	var callees []*ssa.Function
-	if arms := w.ledgerArms(call); arms != nil {
+	if arms := w.ledgerArmsF(call); arms != nil {
 		for _, a := range arms {
 			for _, tn := range []string{"FinalityLedger", "SimpleLedger"} {
 				if f := w.Method(pkgLedger, tn, a.Method); f != nil {
@@ -615,41 +611,50 @@ func a2(w *World, r *Report) {
 	// the limiter is the last validation step: after a successful CheckLimit only `return nil` is reachable
 	sv := needFn(r, "A-2", w, fref{"ctrlers/stake", "StakeCtrler", "ValidateTrx"})
 	if sv != nil {
-		cls := w.callsTo(sv, fref{"ctrlers/stake", "StakeLimiter", "CheckLimit"})
-		ok := len(cls) >= 1
-		bad := ""
-		for _, c := range cls {
-			for _, ex := range exitsAvoiding(posOf(c), nil, nil) {
-				ret, isR := ex.(*ssa.Return)
-				if !isR || ret.Block() == sv.Recover {
-					continue
-				}
-				st := w.errState(ret)
-				if st == triNil {
-					continue
-				}
-				// the error exit of CheckLimit itself
-				if w.nilTestAt(callValue(c), ret.Block()) == 1 {
-					continue
-				}
-				ok = false
-				bad = site(w, ret)
-			}
-			// nothing but the return may follow: no further calls with guards
-			for _, g := range w.Guards(sv) {
-				if instrReaches(c, g.If) {
-					if bo, isB := g.If.Cond.(*ssa.BinOp); isB && (sameValue(bo.X, callValue(c)) || sameValue(bo.Y, callValue(c))) {
-						continue
-					}
-					ok = false
-					bad = site(w, g.If)
-				}
-			}
-		}
+		// evaluated on the paths of the validation (helpers expanded) under the fact
+		// "CheckLimit succeeded": no path that consulted the limiter may end in an error
 		var sites []string
-		for _, c := range cls {
-			sites = append(sites, site(w, c))
+		ev := func(in ssa.Instruction) string {
+			if c, isC := in.(ssa.CallInstruction); isC && callName(c.Common()) == "CheckLimit" {
+				if rn := recvNamed(c.Common()); rn != nil && rn.Obj().Name() == "StakeLimiter" {
+					sites = append(sites, site(w, c))
+					return "LIM"
+				}
+			}
+			return ""
 		}
+		fe := w.newFactEval(nil, AR(`\.stakeLimiter\.CheckLimit\(.*\)$`, "==", "^nil$"))
+		savedBM := w.branchMarkers
+		w.branchMarkers = false
+		paths, complete := w.enumPaths(sv, fe.eval, ev, 6000)
+		w.branchMarkers = savedBM
+		ok := complete && len(fe.used) > 0
+		bad := ""
+		nLim := 0
+		for _, p := range paths {
+			has := false
+			for _, e := range p.Events {
+				if e == "LIM" {
+					has = true
+				}
+			}
+			if !has {
+				continue
+			}
+			nLim++
+			if p.Term != "ok" {
+				ok = false
+				if p.Ret != nil {
+					bad = site(w, p.Ret)
+				}
+			}
+		}
+		if nLim == 0 {
+			ok = false
+			bad = "the limiter is not consulted"
+		}
+		sort.Strings(sites)
+		sites = uniqStrings(sites)
 		r.Check(ok, "A-2", "limiter-last-step", "the stake limiter is consulted as the last validation step: after it succeeded no validation step can fail", "a validation step can still fail after the stake limiter recorded the change: "+bad, sites...)
 		// CheckLimit itself: fail-clean (no error after it has stored)
 		cl := w.Method("ctrlers/stake", "StakeLimiter", "checkUpdatablePowerLimit")
@@ -715,9 +720,26 @@ func a3(w *World, r *Report) {
 	delOK, delWhy := w.unstakeSide()
 	r.Check(feeOK, "A-3", "side-condition:fee-debit-cannot-fail", "commonValidation1 rejects balance < gas x price + amount with the fee expression postRunTrx debits, and CheckBalance is `amount > balance -> error`: the fee debit after the controller ran cannot fail", "the side condition of the fee-debit step no longer holds: "+feeWhy)
 	r.Check(delOK, "A-3", "side-condition:delegatee-delete-cannot-miss", "exeUnstaking deletes the key of the delegatee it has just obtained from the same overlay: the delete cannot miss", "the side condition of the delete-delegatee step no longer holds: "+delWhy)
+	// the post-run step: postRunTrx and the helpers it calls
+	postRun := map[*ssa.Function]bool{}
+	if pf := w.Func("node", "postRunTrx"); pf != nil {
+		for _, f := range w.ReachFrom([]*ssa.Function{pf}, nil).ModuleFuncs() {
+			if strings.HasSuffix(w.FuncPkgPath(f), "/node") {
+				postRun[f] = true
+			}
+		}
+	}
 	w.neverFails = func(call *ssa.Call) bool {
-		if feeOK && w.canonCallI(call.Common()) == "p0.Sender.SubBalance("+feeExpr+")" && call.Parent() != nil && call.Parent().Name() == "postRunTrx" {
-			return true
+		if feeOK && call.Parent() != nil && postRun[call.Parent()] {
+			// in a helper the context parameter is whatever position it has there: compare with
+			// the fee expression over that parameter
+			c := w.canonCallI(call.Common())
+			for i := 0; i < 3; i++ {
+				pi := fmt.Sprintf("p%d", i)
+				if c == pi+".Sender.SubBalance("+strings.ReplaceAll(feeExpr, "p0.", pi+".")+")" {
+					return true
+				}
+			}
 		}
 		if delOK && w.isDelegateeDelete(call) {
 			return true
@@ -754,7 +776,7 @@ func a3(w *World, r *Report) {
 // isDelegateeDelete: a Del/DelFinality on the delegatee ledger whose key is
 // <delegatee obtained from the same ledger for ctx.Tx.To>.Key().
 func (w *World) isDelegateeDelete(call *ssa.Call) bool {
-	arms := w.ledgerArms(call)
+	arms := w.ledgerArmsF(call)
 	if len(arms) == 0 {
 		return false
 	}
@@ -766,12 +788,11 @@ func (w *World) isDelegateeDelete(call *ssa.Call) bool {
 			return false
 		}
 	}
-	args := call.Common().Args
-	if len(args) == 0 {
+	it := w.ledgerItemArg(call)
+	if it == nil {
 		return false
 	}
-	arg := w.Canon(args[len(args)-1])
-	return delegateeKeyRe.MatchString(arg)
+	return delegateeKeyRe.MatchString(w.Canon(it))
 }
 
 var delegateeKeyRe = regexp.MustCompile(`delegateeLedger\.(Get|GetFinality).*\(ledger\.ToLedgerKey\(p0\.Tx\.To\)\)#0\)?\.Key\(\)$`)
@@ -787,7 +808,7 @@ func (w *World) unstakeSide() (bool, string) {
 		if !ok {
 			continue
 		}
-		arms := w.ledgerArms(call)
+		arms := w.ledgerArmsF(call)
 		isDel := false
 		for _, a := range arms {
 			if (a.Method == "Del" || a.Method == "DelFinality") && strings.HasSuffix(w.Canon(a.Recv), ".delegateeLedger") {
@@ -909,4 +930,14 @@ func a5(w *World, r *Report) {
 	if n == 0 {
 		r.Undecided("A-5", "deliverTxSync:AddFee", "AddFee obligation not produced")
 	}
+}
+
+func uniqStrings(xs []string) []string {
+	var out []string
+	for i, x := range xs {
+		if i == 0 || x != xs[i-1] {
+			out = append(out, x)
+		}
+	}
+	return out
 }
